@@ -162,6 +162,16 @@ Proof. intros [H|[H _]]; [exact H|discriminate]. Qed.
 Definition no_empty_pieces_corner (existing : content) (fl : flags) : Prop :=
   fl_write fl && fl_trunc fl = true -> clen existing = 0 -> existing = [].
 
+Lemma hs_fl_enter_write h : hs_fl (enter_write h) = hs_fl h.
+Proof. unfold enter_write. destruct (hs_buf h); reflexivity. Qed.
+Lemma to_end_noappend h d : fl_append (hs_fl h) = false -> to_end_if_append h d = h.
+Proof. intro H. unfold to_end_if_append. rewrite H. reflexivity. Qed.
+Lemma is_w_to_end h d : is_w (to_end_if_append h d) = is_w h.
+Proof.
+  unfold to_end_if_append, is_w. destruct (fl_append (hs_fl h) && _); [|reflexivity].
+  destruct (hs_buf h) as [[b cur]|] eqn:Eb; cbn; rewrite ?Eb; reflexivity.
+Qed.
+
 Lemma sim_open z existing fl : fl_append fl = false ->
   (z = false -> no_empty_pieces_corner existing fl) ->
   sim z (h_open existing fl) (spec_open existing fl).
@@ -247,6 +257,7 @@ Proof.
   - (* Write *)
     unfold hstep, spec_step. rewrite Hfl.
     destruct (fl_write (sp_fl s)) eqn:Ew; cbn [negb]; [|split; [exact Hsim0|left; reflexivity]].
+    rewrite (to_end_noappend (enter_write h) d) by (rewrite hs_fl_enter_write, Hfl; exact Ha).
     pose proof (sim_enter_write z h s Hsim0 Ew) as H1. pose proof (is_w_enter_write h) as W1.
     generalize dependent (enter_write h). intros h1 H1 W1.
     unfold sim, is_w, h_write_at_cursor in *. destruct H1 as (Hfl1 & _ & Hm1).
@@ -310,7 +321,7 @@ Proof.
     destruct r; cbn [fst]; rewrite ?is_w_h_read; congruence.
   - rewrite is_w_h_seek. destruct H as [H|H]; [exact H|]. rewrite andb_false_r in H. discriminate.
   - destruct (fl_write (hs_fl h)); cbn [negb andb] in *.
-    + rewrite is_w_h_write. apply is_w_enter_write.
+    + rewrite is_w_h_write, is_w_to_end. apply is_w_enter_write.
     + destruct H as [H|H]; [exact H|discriminate].
   - destruct (fl_write (hs_fl h)); cbn [negb andb] in *.
     + pose proof (is_w_h_seek (enter_write h) off 0) as S. rewrite is_w_enter_write in S.
@@ -459,9 +470,15 @@ Example seek_free_after_truncate :
   ops_ok' (wm_open ten fl_rw) (spec_open ten fl_rw) [HTruncate 10; HSeek 20 0; HSeek 0 1] = true /\
   ops_ok (spec_open ten fl_rw) [HTruncate 10; HSeek 20 0; HSeek 0 1] = false.
 Proof. vm_compute. split; reflexivity. Qed.
-(* O_APPEND is honoured only when entering write mode *)
-Example needs_no_append : agree_b ten fl_rwa [HWrite [(7, 0, 2)]; HSeek 0 0; HWrite [(8, 0, 1)]] = false.
-Proof. vm_compute. reflexivity. Qed.
+(* O_APPEND handles: on the pinned tree the flag was honoured only when entering write mode (this sequence disagreed);
+   repaired in /repo ("fix: apply O_APPEND on every write"), mirrored in Model/File.v (to_end_if_append).  The sequences
+   that used to witness the finding now agree with the byte-array specification; the refinement theorems still carry the
+   hypothesis fl_append = false because their proof was written for it (no counterexample is known any more). *)
+Example append_agrees :
+  agree_b ten fl_rwa [HWrite [(7, 0, 2)]; HSeek 0 0; HWrite [(8, 0, 1)]] = true /\
+  agree_b ten fl_rwa [HWrite []; HRead 4] = true /\
+  agree_b ten fl_rwa [HRead 3; HTruncate 5; HRead 2; HWrite [(7, 0, 2)]; HSeek 0 1] = true.
+Proof. vm_compute. repeat split; reflexivity. Qed.
 
 Print Assumptions C14_refines_wide.
 Print Assumptions C14_refines_eq.
